@@ -1,6 +1,6 @@
 /-
   List-level lemmas for `Proof.Undo` (property C08): closed forms of the loops of
-  `pruneEdges`, `udReplace`, `getHashAndPosSubset` (first-match look-up form, for lists that are
+  `pruneEdgesOld`, `udReplace`, `getHashAndPosSubset` (first-match look-up form, for lists that are
   only weakly sorted), `mergeSortedHashAndPos` on weakly sorted lists.
 -/
 import UtreexoVerif.Model.ProofUpdate
@@ -13,9 +13,9 @@ open UtreexoVerif.Proofs.ProofUpdateLists
 section
 variable {H : Type}
 
-/-! ### `pruneEdges` -/
+/-! ### `pruneEdgesOld` -/
 
-/-- the test of `pruneEdges` for one position -/
+/-- the test of `pruneEdgesOld` for one position -/
 def pruneKeep (numAdds numLeaves : U64) (forestRows prevForestRows : U8) (target : U64) : Bool :=
   let row := DetectRow target forestRows
   if row > prevForestRows then false
@@ -23,21 +23,21 @@ def pruneKeep (numAdds numLeaves : U64) (forestRows prevForestRows : U8) (target
     decide (startPositionAtRow row prevForestRows + (target - startPositionAtRow row forestRows) ≤
       (maxPositionAtRow row prevForestRows (numLeaves - numAdds)).1)
 
-/-- `pruneEdges` is a filter when `maxPositionAtRow` reports no error on the rows that reach it -/
+/-- `pruneEdgesOld` is a filter when `maxPositionAtRow` reports no error on the rows that reach it -/
 theorem pruneEdges_eq (a n : U64) (fr pfr : U8) : ∀ (l acc : HP H),
     (∀ x ∈ l, ¬ DetectRow x.1 fr > pfr →
       (maxPositionAtRow (DetectRow x.1 fr) pfr (n - a)).2 = false) →
-    pruneEdges a n fr pfr l acc = .ok (acc ++ l.filter (fun x => pruneKeep a n fr pfr x.1)) := by
+    pruneEdgesOld a n fr pfr l acc = .ok (acc ++ l.filter (fun x => pruneKeep a n fr pfr x.1)) := by
   intro l
   induction l with
-  | nil => intro acc _; simp [pruneEdges]
+  | nil => intro acc _; simp [pruneEdgesOld]
   | cons x rest ih =>
     intro acc hne
     obtain ⟨target, h⟩ := x
     have hrest : ∀ y ∈ rest, ¬ DetectRow y.1 fr > pfr →
         (maxPositionAtRow (DetectRow y.1 fr) pfr (n - a)).2 = false :=
       fun y hy => hne y (List.mem_cons_of_mem _ hy)
-    unfold pruneEdges
+    unfold pruneEdgesOld
     simp only
     by_cases hrow : DetectRow target fr > pfr
     · rw [if_pos hrow, ih acc hrest, List.filter_cons_of_neg]
